@@ -17,6 +17,8 @@ pub struct FragCase {
     pub rich: bool,
     #[serde(default)]
     pub overflow: bool,
+    #[serde(default)]
+    pub pad: bool,
 }
 
 #[derive(Debug, Clone)]
@@ -94,12 +96,13 @@ fn first_cell_has_text(dom: &Arena, e: usize) -> bool {
 }
 
 pub fn check_html(html: &str, html_noids: Option<&str>, width: usize, rich: bool, st: &mut Stats, exclude_known: bool) -> Result<bool, String> {
-    check_html_cfg(html, html_noids, width, rich, false, st, exclude_known)
+    check_html_cfg(html, html_noids, width, rich, (false, false), st, exclude_known)
 }
 
-pub fn check_html_cfg(html: &str, html_noids: Option<&str>, width: usize, rich: bool, overflow: bool, st: &mut Stats, exclude_known: bool) -> Result<bool, String> {
+pub fn check_html_cfg(html: &str, html_noids: Option<&str>, width: usize, rich: bool, (overflow, pad): (bool, bool), st: &mut Stats, exclude_known: bool) -> Result<bool, String> {
     let mut cfg = if rich { CfgSpec::rich() } else { CfgSpec::plain() };
     cfg.overflow = overflow;
+    cfg.pad = pad;
     let dom = odom::parse(html.as_bytes());
     let r = render_lines(&cfg, html.as_bytes(), width);
     if let Some(b) = r.bad() {
@@ -312,7 +315,7 @@ pub fn check_frags(case: &FragCase, st: &mut Stats) -> Result<(), String> {
     gen::strip_ids(&mut plain.blocks);
     let html_noids = plain.to_html();
     st.sample(|| json!({"html": short(&html, 400), "width": case.width, "rich": case.rich}));
-    let nt = check_html_cfg(&html, Some(&html_noids), case.width, case.rich, case.overflow, st, true)?;
+    let nt = check_html_cfg(&html, Some(&html_noids), case.width, case.rich, (case.overflow, case.pad), st, true)?;
     if nt {
         st.nontrivial(case);
         st.nt_sample(|| json!({"html": short(&html, 400), "width": case.width}));
@@ -335,7 +338,7 @@ pub struct ExplicitFrag {
 }
 
 pub fn check_explicit(case: &ExplicitFrag, st: &mut Stats) -> Result<(), String> {
-    check_html_cfg(&case.html, case.noids.as_deref(), case.width, false, case.overflow, st, case.lenient).map(|_| ())
+    check_html_cfg(&case.html, case.noids.as_deref(), case.width, false, (case.overflow, false), st, case.lenient).map(|_| ())
 }
 
 fn explicit_items() -> Vec<ExplicitFrag> {
@@ -365,14 +368,14 @@ fn explicit_items() -> Vec<ExplicitFrag> {
 
 fn frag_case() -> BoxedStrategy<FragCase> {
     let g = G::default().depth(2).with_ids();
-    (gen::doc(&g), prop_oneof![3 => 1usize..=100, 2 => 1usize..=8], any::<bool>(), prop::bool::weighted(0.25))
-        .prop_map(|(mut doc, width, rich, overflow)| {
+    (gen::doc(&g), prop_oneof![3 => 1usize..=100, 2 => 1usize..=8], any::<bool>(), prop::bool::weighted(0.25), prop::bool::weighted(0.2))
+        .prop_map(|(mut doc, width, rich, overflow, pad)| {
             drop_id_on_named_anchors(&mut doc.blocks);
             // KF-C13-invisible-block: an id keeps an otherwise empty block alive and changes the text
             gen::ensure_runs_visible(&mut doc.blocks);
             unlink_invisible(&mut doc.blocks);
             super::c03::sanitize_hrefs(&mut doc.blocks);
-            FragCase { doc, width, rich, overflow }
+            FragCase { doc, width, rich, overflow, pad }
         })
         .boxed()
 }
@@ -435,7 +438,7 @@ pub fn property() -> Property {
     Property {
         id: "C14",
         level: "exploration",
-        rule: "grammar documents with one identifying character per text node and unique ids on random elements (p, div, span, em and other inline elements, a[name], img, li, ul, ol, blockquote, h*, pre, td, tr, table, dl/dt/dd), width 1..=100 with 40% of cases at width 1..=8 (first words hard-wrapped), plain and rich line output, 25% with allow_width_overflow. Oracle from the oracle DOM and the linearised element stream of the output: every id on an element with visible text has exactly one FragmentStart; restricted to the characters of the element's scope (innermost table cell, or the document) the marker lies after every character preceding the element and before every character of the element; it is on the same line as the element's first character unless the element starts with a forced break (a <br>, or a block inside an inline element) or white space, zero-width text or decoration text (`*`, `[`, `^{`) separates the marker from that character (a wrap may fall between them; counted) - asserted for every other id-bearing element, mid-line or line-starting, incl. hard-wrapped words and allow_width_overflow at width 1; the string output is byte-identical with all ids removed. Non-trivial = a checked id inside a list item / quote / dd / table cell; distinct by the whole case.",
+        rule: "grammar documents with one identifying character per text node and unique ids on random elements (p, div, span, em and other inline elements, a[name], img, li, ul, ol, blockquote, h*, pre, td, tr, table, dl/dt/dd), width 1..=100 with 40% of cases at width 1..=8 (first words hard-wrapped), plain and rich line output, 25% with allow_width_overflow, 20% with pad_block_width. Oracle from the oracle DOM and the linearised element stream of the output: every id on an element with visible text has exactly one FragmentStart; restricted to the characters of the element's scope (innermost table cell, or the document) the marker lies after every character preceding the element and before every character of the element; it is on the same line as the element's first character unless the element starts with a forced break (a <br>, or a block inside an inline element) or white space, zero-width text or decoration text (`*`, `[`, `^{`) separates the marker from that character (a wrap may fall between them; counted) - asserted for every other id-bearing element, mid-line or line-starting, incl. hard-wrapped words and allow_width_overflow at width 1; the string output is byte-identical with all ids removed. Non-trivial = a checked id inside a list item / quote / dd / table cell; distinct by the whole case.",
         assumptions: vec!["ids on elements without visible text are outside the claim (tolerated)", "id on table/thead/tbody/tr whose first cell has no text is a known finding (excluded by predicate, counted)"],
         hang_is_violation: false,
         subs: vec![
